@@ -129,7 +129,8 @@ class Harnessed:
             return np.zeros((0, self.d)), np.zeros(0)
         S = lib_call("get_sample(burn=0)", self.chain.get_sample, burn=0, thin=1)
         P = lib_call("get_probabilities(burn=0)", self.chain.get_probabilities, burn=0, thin=1)
-        return np.asarray(S, dtype=float), np.asarray(P, dtype=float)
+        # copies: some samplers hand out views of their storage
+        return np.array(S, dtype=float, copy=True), np.array(P, dtype=float, copy=True)
 
     def length(self):
         return int(lib_call("chain_length", lambda: self.chain.chain_length))
